@@ -46,6 +46,15 @@ def decode(acc, block: bytes) -> Any:
     return raw
 
 
+class _Observer:
+    def __init__(self, mon, acc):
+        self.mon = mon
+        self.acc = acc
+
+    def on_change(self, sender=None, old=None, new=None):
+        self.mon._called(self.acc, sender, old, new)
+
+
 class NotifyMonitor:
     def __init__(self, world, struct, label: str, prop: str = "C03"):
         self.world = world
@@ -69,15 +78,13 @@ class NotifyMonitor:
     def watch(self, acc, times: int = 1) -> None:
         info = self.watched.get(id(acc))
         if info is None:
-            mon = self
-
-            def observer(sender=None, old=None, new=None, acc=acc):
-                mon._called(acc, sender, old, new)
-            info = {"acc": acc, "obs": observer, "active": True, "twice": False}
+            # observers are bound methods, as every real client passes (`accessor.watch(self._on_change)`); each registration
+            # looks the method up afresh, so two registrations are equal but not identical objects
+            info = {"acc": acc, "obj": _Observer(self, acc), "active": True, "twice": False}
             self.watched[id(acc)] = info
         info["active"] = True
         for _ in range(times):
-            acc.watch(info["obs"])
+            acc.watch(info["obj"].on_change)
         if times > 1:
             info["twice"] = True
             self.world.result.probe("watched_twice")
@@ -85,7 +92,7 @@ class NotifyMonitor:
     def unwatch(self, acc) -> None:
         info = self.watched.get(id(acc))
         if info is not None and info["active"]:
-            acc.unwatch(info["obs"])
+            acc.unwatch(info["obj"].on_change)
             info["active"] = False
             self.world.result.probe("unwatched")
 
